@@ -24,6 +24,19 @@ TEXT = {
             "Runtime monitoring: each observed call is re-executed on transformed copies and the relation is asserted; "
             "gradient equivariance is arbitrated by a numeric derivative where decidable.",
             "Tolerances 1e-9 (sqrt-aware for MMD, K*epsilon for clipped one-hot rows); gradient equivariance undecided at kinks."),
+    "C03": ("invariant at a hook: inside sklearn BaseOptimizer.update_params, before the step, the gradient list is "
+            "compared entry-wise with the numeric derivative of GEMINI(model._infer(batch), affinity block) - documented "
+            "penalty evaluated on the live model; _batchify hook supplies the live batch and sample ids",
+            "Runtime monitoring of real fits/paths of all 8 gradient-trained families (all 17 gradient estimators), all "
+            "GEMINIs, both solvers, batch sizes 1..n+3, plain and mlcl-decorated, first/last/random steps.",
+            "Numeric-derivative oracle (kinks skipped, ill-conditioned coordinates compared only against 10x the noise "
+            "floor); penalties as documented (RIM l2, KernelRIM tr(W'KW), mlcl pairwise terms)."),
+    "C05": ("contract on every call of the four proximal functions (all references rebound, so calls from real sparse "
+            "fits/paths are seen): closed-form group-lasso reference with exact-zero test; HIER-PROX checked for "
+            "feasibility, optimality against a bisection solution of the reduced 1-D convex problem, uniqueness, and "
+            "random feasible perturbations",
+            "Runtime monitoring over ~25k rows per quick run incl. exhaustive set partitions of <=5 features.",
+            "Reference minimiser by bisection (1e-16 bracket); tolerances 1e-12 (group lasso), 1e-10 objective / 1e-8 argmin."),
 }
 
 TECH_DEFAULT = "runtime monitoring: contracts/invariants at hooked call sites over generated workloads"
